@@ -503,6 +503,14 @@ func (fc *FnCtx) evalCall(x *ECall, env *Env) Val {
 			return Val{K: KPtr, T: ht, C: []string{v.C[0]}}
 		}
 		fc.fail("hdr of kind %d", v.K)
+	case "typeofcode":
+		// typeofcode(x, c): the interface value x has the dynamic type the record schema gives the type code c (no
+		// constraint when c is not the code of a schema type)
+		v := fc.evalExpr(x.Args[0], env)
+		if v.K != KIface {
+			fc.fail("typeofcode: first argument must be an interface value")
+		}
+		return boolVal(fc.e.typeOfCode(v.C[0], fc.evalExpr(x.Args[1], env).S()))
 	case "intelems":
 		// intelems(s): static - the elements of slice s are of an integer type (used by contracts of generic functions
 		// whose element-wise clauses only make sense for scalar instances)
